@@ -84,6 +84,12 @@ DIRECTED = [
     {'prog': [_p('a', r='T')], 'cfg': {'tdiag': 'raise'}},
     {'prog': [_p('a')], 'cfg': {'start': _p('start', r='T')}},
     {'prog': [_p('a')], 'cfg': {'start': _p('start', r='K')}},
+    # failures that leave no phase record at all
+    {'prog': [['T', 't0', [['C', 'c1', ['NOT_ANY', ['D2']], 'U']]]], 'cfg': {}},
+    {'prog': [['T', 't0', [['C', 'c1', ['NOT_ANY', ['D2']], 'U'],
+                           _p('x', run_if=False)]]], 'cfg': {'tdiag': 'pass'}},
+    {'prog': [['C', 'c1', ['NOT_ANY', ['D2']], 'S']], 'cfg': {}},
+    {'prog': [_p('a', run_if=False)], 'cfg': {'tdiag': 'fail'}},
 ]
 
 
